@@ -33,26 +33,7 @@ def _calls_in(e):
     return {c.get("fn") for c in T.calls(e) if c.get("fn")}
 
 
-def _depends_on(fn, e, pred, depth=3):
-    """expression e (through single-assignment / loop-induction locals of fn) contains a node satisfying pred"""
-    seen = set()
-
-    def rec(x, d):
-        for y in T.walk(x):
-            if isinstance(y, dict) and pred(y):
-                return True
-        if d <= 0:
-            return False
-        for v in T.vars_in(x):
-            if v in seen:
-                continue
-            seen.add(v)
-            for n in fn.events("S"):
-                if T.path(n.ev["lhs"]) == v and T.strip(n.ev["lhs"]).get("k") == "v" and isinstance(n.ev.get("rhs"), dict):
-                    if rec(n.ev["rhs"], d - 1):
-                        return True
-        return False
-    return rec(e, depth)
+_depends_on = depends_on
 
 
 def iblock_indices(prog, fn, atoms, depth=1):
@@ -224,9 +205,28 @@ def run(world, rep, tier, only=None):
     # the mapping-root test in front of the file walk
     for c in file_it:
         alts = _or_alternatives(wr, c)
-        idx = iblock_indices(prog, wr, alts)
-        ext = any("EXT4_EXTENTS_FL" in T.macros(a) for a in alts) or any(
-            "EXT4_EXTENTS_FL" in T.macros(e) for a in alts for cc in T.calls(a) if cc.get("fn")
+        # the conditions deciding whether this inode is walked: the literals of the inode loop's body from which
+        # the walk is still reachable, on the side of the all-blocks classes' else arm (a helper the test was
+        # moved into is part of this function, or followed one level)
+        hb = loop_head(wr, c)
+        body = wr.reach([wr.node(wr.blocks[hb]["s"][0], 0)], avoid=[wr.block_end(hb)]) if hb is not None else set(wr.nodes())
+        back = wr.reach_back([c])
+        dir_side = set()
+        for d_ in dir_it:
+            dir_side |= wr.reach_back([d_]) - back
+        region_atoms = list(alts)
+        for bid in wr.blocks:
+            end = wr.block_end(bid)
+            lit = wr.literal(bid)
+            if lit and end in body and end in back and end not in dir_side:
+                region_atoms.append(lit[0])
+        # also the stores feeding a result variable of an absorbed helper (`$ret = inode->i_block[i] != 0`)
+        for n in wr.events("S"):
+            if n in body and n in back and isinstance(n.ev.get("rhs"), dict):
+                region_atoms.append(n.ev["rhs"])
+        idx = iblock_indices(prog, wr, region_atoms) | _induction_indices(wr, region_atoms)
+        ext = any("EXT4_EXTENTS_FL" in T.macros(a) for a in region_atoms) or any(
+            "EXT4_EXTENTS_FL" in T.macros(e) for a in region_atoms for cc in T.calls(a) if cc.get("fn")
             for g in prog.lookup(cc["fn"], wr) if g.file == E2I for _l, e in width._exprs_of(g))
         ind = {named_const(prog, "EXT2_IND_BLOCK"), named_const(prog, "EXT2_DIND_BLOCK"), named_const(prog, "EXT2_TIND_BLOCK")}
         if None in ind:
@@ -348,6 +348,35 @@ def run(world, rep, tier, only=None):
     rep.floor("C19.w mask operations examined", n_and, 10)
     rep.ob("C19.w", "misc/e2image.c,lib/ext2fs/qcow2.c:*:no 32-bit complement mask on a 64-bit offset", not hits,
            "%d `&` operations examined; hits: %s" % (n_and, [(f.file, f.name, l, t[:50]) for f, l, z, t in hits]))
+
+
+def _induction_indices(fn, atoms):
+    """i_block[iv] tests inside fn itself: the index range of the induction variable (constant init and bound)"""
+    res = set()
+    for a in atoms:
+        for x in T.walk(a):
+            if not (isinstance(x, dict) and x.get("k") == "x" and T.last_field(x.get("b")) and T.last_field(x["b"])[1] == "i_block"):
+                continue
+            if T.const(x.get("i")) is not None:
+                continue
+            iv = T.path(x.get("i"))
+            if not iv:
+                continue
+            inits = [T.const(n.ev.get("rhs")) for n in fn.events("S") if T.path(n.ev["lhs"]) == iv and n.ev.get("o") == "="]
+            inits = [k for k in inits if k is not None]
+            bounds = []
+            for bid, b in fn.blocks.items():
+                t = b.get("t")
+                if not t or not isinstance(t.get("c"), dict):
+                    continue
+                c0 = T.strip(t["c"])
+                if isinstance(c0, dict) and c0.get("k") == "b" and c0.get("o") in ("<", "<=") and T.path(c0["l"]) == iv:
+                    k = T.const(c0["r"])
+                    if k is not None:
+                        bounds.append(k if c0["o"] == "<=" else k - 1)
+            if inits and bounds:
+                res |= set(range(min(inits), max(bounds) + 1))
+    return res
 
 
 def _silent(fn, prog, node, loops=False):
